@@ -5,7 +5,7 @@ i, rnd, prop = sys.argv[1], int(sys.argv[2]), sys.argv[3]
 note = sys.argv[4] if len(sys.argv) > 4 else None
 p = '/verif/seeded/%s/meta.json' % i
 m = json.load(open(p))
-m['needs_to_manifest'] = {3: "less obvious corner (round 3); see README.md", 4: "support code / tools (round 4); see README.md", 5: "two features combined (round 5); see README.md", 6: "optimisation / clean-up wrong in a corner (round 6); see README.md", 7: "error-handling / clean-up / lifetime path (round 7); see README.md"}.get(rnd, m.get('needs_to_manifest'))
+m['needs_to_manifest'] = {3: "less obvious corner (round 3); see README.md", 4: "support code / tools (round 4); see README.md", 5: "two features combined (round 5); see README.md", 6: "optimisation / clean-up wrong in a corner (round 6); see README.md", 7: "error-handling / clean-up / lifetime path (round 7); see README.md", 8: "arithmetic / representation slip (round 8); see README.md"}.get(rnd, m.get('needs_to_manifest'))
 m['detected_by'] = {'check': './check %s --tier quick' % prop, 'result': 'VIOLATION with a concrete failing input (replay file)',
                     'confirmed_by': 'tools/try_seeded.sh / tools/run_seeded_snapshot.sh (apply the patch, run the check, undo)'}
 if note: m['detected_by']['note'] = note
